@@ -126,4 +126,41 @@ mod verif_kani_strings {
     fn k5_hexescape8() {
         hexescape_check::<8, 9>();
     }
+
+    // ------------------------------------------------------------------ K13: parser <-> O-str, tiny tokens
+    // basic_string on every valid-UTF-8 input of N bytes: accepts exactly when the input starts
+    // with a basic-string token of the grammar (O-str dec_basic_prefix), decodes to the same bytes
+    // and consumes exactly the token.  Bounded: N bytes.
+    fn basic_check<const N: usize>() {
+        let buf: [u8; N] = kani::any();
+        let mut input = match input_of(&buf) {
+            Some(i) => i,
+            None => return,
+        };
+        let r = basic_string(&mut input);
+        let want = o_str::dec_basic_prefix(&buf);
+        match (&r, &want) {
+            (Ok(got), Some((w, used))) => {
+                assert!(got.as_bytes() == &w[..], "basic string decodes to different bytes");
+                assert!(input.eof_offset() == N - *used, "basic string consumed the wrong number of bytes");
+            }
+            (Err(_), None) => {}
+            (Ok(_), None) => assert!(false, "parser accepts a token the basic-string grammar rejects"),
+            (Err(_), Some(_)) => assert!(false, "parser rejects a token of the basic-string grammar"),
+        }
+        kani::cover!(r.is_ok());
+        kani::cover!(r.is_err());
+        core::mem::forget(r);
+        core::mem::forget(want);
+    }
+
+    #[kani::proof]
+    #[kani::unwind(8)]
+    #[kani::stub(alloc::fmt::format, stub_format)]
+    fn k13_basic3() { basic_check::<3>(); }
+
+    #[kani::proof]
+    #[kani::unwind(9)]
+    #[kani::stub(alloc::fmt::format, stub_format)]
+    fn k13_basic4() { basic_check::<4>(); }
 }
